@@ -108,7 +108,7 @@ def finding_classes(d: Any) -> set[str]:
 
 
 def build_cases(ctx: Ctx, n_random: int, sizes: list[int], with_corpus: bool, multi_start: bool = False,
-                k: int = 2) -> list[dict[str, Any]]:
+                k: int = 2, f_adjacent: bool = False) -> list[dict[str, Any]]:
     """definitions with their complete job sets (loops 1..k), as Lean's `runs` enumerates them"""
     r = ctx.rng
     defs: list[dict[str, Any]] = []
@@ -116,6 +116,11 @@ def build_cases(ctx: Ctx, n_random: int, sizes: list[int], with_corpus: bool, mu
         defs.append({"kind": "small", "blk": d})
     for d in pvlib.enumerate_loop_tails():
         defs.append({"kind": "loop_tail", "blk": d})
+    if f_adjacent:
+        # outside F (C01/C02 do not quantify over them: with nothing after the outer loop the exit is unobservable and
+        # the learner is not sound there); C05's clauses are stated for every emitted file
+        for d in pvlib.enumerate_bare_breaks():
+            defs.append({"kind": "f_adjacent", "blk": d})
     for _ in range(n_random):
         defs.append({"kind": "random", "blk": pvlib.gen_definition(r, r.choice(sizes))})
     if multi_start:
